@@ -168,10 +168,17 @@ def _c_from_native(interp: Any, fv: Any, args: List[Any], kwargs: Dict[str, V], 
     return Sym(f"native({a.key()})", "Schema", ("from_native", a))
 
 
+_MUTABLE_FIELDS: Dict[Any, Dict[str, int]] = {}
+
+
 def mutable_fields(ci: Any) -> Dict[str, int]:
     """Attributes of `self` that some method other than __init__ assigns (name -> line): their value at the start of
     a visit is whatever earlier visits - or an enclosing visit that is still running - left there."""
+    ck = (id(ci), ci.qualname)
+    if ck in _MUTABLE_FIELDS:
+        return _MUTABLE_FIELDS[ck]
     out: Dict[str, int] = {}
+    _MUTABLE_FIELDS[ck] = out
     for c in ci.mro():
         for name, m in c.methods.items():
             if name == "__init__":
